@@ -481,9 +481,12 @@ fn consume_expr<'i>(
                         }
                     }
                     Rule::insensitive_string => {
-                        let string = unescape_literal(&pair, "string")?;
+                        // `insensitive_string = { "^" ~ string }` is not atomic: whitespace and comments
+                        // may follow the `^`, so take the text of the inner `string` pair.
+                        let string_pair = pair.clone().into_inner().next().unwrap();
+                        let string = unescape_literal(&string_pair, "string")?;
                         ParserNode {
-                            expr: ParserExpr::Insens(string[2..string.len() - 1].to_owned()),
+                            expr: ParserExpr::Insens(string[1..string.len() - 1].to_owned()),
                             span: pair.clone().as_span(),
                         }
                     }
